@@ -21,7 +21,7 @@ RULE = (
     "-v/-vv/-vvv, --ansi, --no-ansi, no-interaction, help, version; long and short spellings; singletons, pairs, larger "
     "sets; all 2^7 minus contradictory pairs in thorough) inserted at every kind of position before '--' (before the path, "
     "inside it, right after it, among the arguments, at the end) in both orders, x handler behaviour {writes styled text at 4 "
-    "levels to both streams (directly, and in a second kind through io.section()), asks a confirmation (and, when the I/O is not interactive, ten more questions of every kind - plain, validated, choice by index / "
+    "levels to both streams (directly, in a second kind through io.section(), in a third through the raw line writers), asks a confirmation (and, when the I/O is not interactive, ten more questions of every kind - plain, validated, choice by index / "
     "name / integer, multi-select, confirmation - each of which must return the very default it was given), raises} x streams claiming / denying ANSI. Control: the same tokens after "
     "'--', also with a switch as the last token right before '--'. Sequences: four runs with different switches on ONE application object, each compared with the same line on a "
     "fresh application (a switch governs its own run only). Clauses per switch as in the statement; handler-level clauses only when the base command's handler still runs. "
@@ -120,6 +120,19 @@ def behaviour_for(env, kind, answers):
             io.error_line("V-err", V)
             io.error_line("VV-err", VV)
             io.error_line("D-err", D)
+            return 0
+        if kind == "write-raw":
+            # the same messages through the raw (unformatted) line writers
+            io.write_line_raw("N-out")
+            io.write_line_raw("V-out", V)
+            io.write_line_raw("VV-out", VV)
+            io.write_line_raw("D-out", D)
+            io.error_line_raw("N-err")
+            io.error_line_raw("V-err", V)
+            io.error_line_raw("VV-err", VV)
+            io.error_line_raw("D-err", D)
+            io.write_raw("", V)
+            io.error_raw("", D)
             return 0
         if kind == "section":
             # the same messages through sections of the two outputs (as applications with live-updating output do)
@@ -275,10 +288,17 @@ def judge_variant(sh, env, tree, path, names, base, switches, tokens, positions,
         after_path = all(p >= npath for s, p in positions if s in ("help", "version"))
         if ran and after_path and not veats:
             sh.violate("handler-ran", record, "handler %r ran although help/version was requested" % ran[0]["command"])
+    if same_handler and not (names_set & {"help", "version"}):
+        # the switches do not change what the handler's run amounts to
+        want_status = 1 if kind == "raise" else 0
+        if r["status"] != want_status:
+            sh.violate("status", record, "the handler ran, but the run returned %r instead of %d: out %r err %r" % (r["status"], want_status, r["out"][-120:], r["err"][-160:]))
+        if kind == "ask" and "nointer" in names_set and r["answers"][:1] != [False]:
+            sh.violate("no-interaction", record, "the confirmation (default False) answered %r under the no-interaction switch" % (r["answers"][:1],))
     if same_handler and not (names_set & {"quiet"}):
         sh.count("handler_level_checks")
         verbosity = tap["verbosity"]
-        if kind in ("write", "section"):
+        if kind in ("write", "section", "write-raw"):
             o = SGR.sub("", r["out"]).split("\n")
             e = SGR.sub("", r["err"]).split("\n")
             if [l for l in o if l] != expected_lines("out", verbosity) or [l for l in e if l] != expected_lines("err", verbosity):
@@ -462,7 +482,7 @@ def run_tree(sh, env, tree, rng, tier):
     ansi_switches_after_each_other(sh, env, tree, rng, shape)
     switch_sequences(sh, env, tree, rng, shape)
     for path, names, base in base_lines(tree, rng, 4 if tier == "quick" else 6):
-        for kind in ("write", "ask", "raise", "section"):
+        for kind in ("write", "ask", "raise", "section", "write-raw"):
             ansi_streams = (rng.random() < 0.5, rng.random() < 0.5)
             b, _ = execute(env, tree, base, kind, ansi_streams)
             want_status = 1 if kind == "raise" else 0
@@ -473,7 +493,7 @@ def run_tree(sh, env, tree, rng, tier):
             sets = subsets(rng, tier)
             if kind != "write":
                 sets = rng.sample(sets, max(6, len(sets) // 4))
-            if kind == "section":
+            if kind in ("section", "write-raw"):
                 sets = [x for x in sets if "quiet" in x or set(x) & set(VERB)] + [["quiet"], ["v2"]]
             for sset in sets:
                 order = list(sset)
